@@ -642,3 +642,72 @@ def r11_summary_never_assigned(ctx):
 
 
 RULES += [r11_summary_never_assigned]
+
+
+def r12_every_cell_folded_or_abort(ctx):
+    ctx.rule("C14.r12", "array_adaptive smashing: the loop that folds the tracked cells into the summary either stores EVERY cell "
+             "(base.array_store(a, .., ghost of the cell, ..)) or gives the smashing up (the flag that guards `m_is_smashed = true` and "
+             "the erasure of the cells is cleared) on every path of an iteration, including the ones that leave the loop early - a "
+             "cell that is skipped silently is erased with the others and its contents are no longer in the summary", floor=2)
+    n = 0
+    seen = set()
+    for fn in ctx.db.fns(AA):
+        if not (fn.get("cpk") or "").startswith(AAC) or fn["name"] not in ("array_store", "smash_array"):
+            continue
+        body = fn["body"]
+        for loop in [l for l in walk(body) if l.get("k") in ("for", "rangefor", "while")]:
+            lb = loop.get("b")
+            stores = [c for c in walk(lb) if is_call(c, name="array_store") and c.get("o") is not None and len(c.get("a", [])) == 5]
+            flagged = []
+            for c in stores:
+                flag = resolve_local(body, strip(c["a"][4]))
+                if isinstance(flag, dict) and cmp_parts(flag) and cmp_parts(flag)[0] == "==" and any(y.get("k") == "lit" and y.get("v") == "0" for y in walk(flag)):
+                    flagged.append(c)
+            if not flagged:
+                continue
+            key = (fn["name"], loop.get("l"))
+            if key in seen:
+                continue
+            seen.add(key)
+            n += 1
+            # the abort flag: a local bool assigned `false` inside the loop and tested afterwards
+            aborts = [a for a, ps in nodes_not_in_log(lb, lambda x: x.get("k") == "asg" and isinstance(strip(x.get("L")), dict) and strip(x["L"]).get("k") == "ref"
+                                                      and isinstance(strip(x.get("R")), dict) and strip(x["R"]).get("k") == "lit" and strip(x["R"]).get("v") in ("false", "true"))]
+            inner_decls = {d.get("id") for d in walk(lb) if d.get("k") == "decl"}
+            aborts = [a for a in aborts if strip(a["L"]).get("id") not in inner_decls]
+            abort_ids = {strip(a["L"]).get("id") for a in aborts}
+            store_ids = {id(c) for c in flagged}
+
+            def gen(x):
+                if id(x) in store_ids:
+                    return ("done",)
+                if x.get("k") == "asg" and isinstance(strip(x.get("L")), dict) and strip(x["L"]).get("id") in abort_ids and \
+                        isinstance(strip(x.get("R")), dict) and strip(x["R"]).get("k") == "lit":
+                    return ("done",)
+                if x.get("k") == "ret":
+                    return ("done",)
+                return ()
+            fl = paths.MustEvents(gen)
+            fl.record_after = True
+            try:
+                fl.run({"k": "seq", "b": [loop]})
+            except paths.Unstructured as e:
+                ctx.undecided("%s: smashing loop with unstructured control flow (%s)" % (fn["name"], e), fn, loop)
+                continue
+            exits = [(b, fl.at.get(id(b))) for b in walk(lb, into_lambdas=False) if b.get("k") in ("break", "continue")]
+            exits.append((lb, fl.after.get(id(lb))))
+            bad = [(b, st) for b, st in exits if st is not None and "done" not in st]
+            if bad:
+                b = bad[0][0]
+                ctx.bad("array_adaptive_domain::%s: an iteration of the smashing loop can end (%s) without storing the cell into the summary "
+                        "and without giving the smashing up: a cell without ghost variable (written on one side of an earlier join) is "
+                        "erased with the others and `x := A[12]` no longer contains the 7 stored there" %
+                        (fn["name"], "at the end of the body" if b is lb else b.get("k")), fn, b if b is not lb else loop,
+                        sig="smash-cell-skipped:%s" % fn["name"])
+            else:
+                ctx.ok("%s: every iteration stores the cell or gives the smashing up" % fn["name"], fn, loop)
+    if n == 0:
+        ctx.fail("rule C14.r12: smashing loop not found")
+
+
+RULES += [r12_every_cell_folded_or_abort]
